@@ -27,7 +27,14 @@ RULE = ("input charts from three kinds of source: (1) ~72% built through the lis
         "generated osu texts, .qua documents (incl. explicit `EndTime: 0` and omitted keys), .sm texts, BMS lines and OJN bytes "
         "(the text/byte generators of harness/props/c01, c06, c02, c04, c07 are reused); (3) ~22% of all charts additionally go "
         "through `rate` or one of the 16 converters before full_ln.  The kind of a note is the list it lives in; the input rows are "
-        "taken from the chart that full_ln receives.  non-trivial = some column holds at least two notes")
+        "taken from the chart that full_ln receives; (4) ~30% of all cases are SESSIONS: 2-4 full_ln calls (own gap/threshold each) on one lineage "
+        "of chart objects — the chart, earlier results, deepcopies and rated copies of them — with in-place edits before each call "
+        "through every editing route of the library (list property column assignment on offset/length/column, Stacker over all "
+        "lists / over (type(hits), type(holds)) / base classes / NoteList / one list, Stacker.loc with a column or time condition, "
+        "a list replaced through the map property / in objs / by swapping or copying its .df, filter + append that moves notes "
+        "between hits and holds or re-times them keeping the row total, single cells through the list's loc / iloc); every call is judged on its own against the content the "
+        "chart has at that moment, read through the plain list API (never through stack()).  "
+        "non-trivial = some column holds at least two notes (sessions: and at least two calls were judged)")
 ASSUMPTIONS = [
     "pandas concat/sort_values/groupby/diff/shift/itertuples and DataFrame.from_dict are modelled as list operations "
     "(any sorting permutation is accepted for equal offsets)",
@@ -35,9 +42,15 @@ ASSUMPTIONS = [
     "(`skipped` tag, outside the domain); charts read / converted / rated are judged on the exact stream when every value is a "
     "small dyadic, else on the tolerance stream",
     "stream T: lengths are compared within 2^-46 * (1 + largest operand magnitude); a threshold comparison closer than "
-    "that to its boundary is counted as float-boundary and only conservation is judged",
+    "that to its boundary is counted as float-boundary and only conservation is judged; a result length within the tolerance both "
+    "of the rule's value and of the length the note was given is read as either",
+    "sessions: the edits between the calls are applied to the real chart through the library's own routes and the chart is read "
+    "back through the list API before every call (the edits themselves are not modelled; an edit route that refuses a chart ends "
+    "the session, the calls judged so far count)",
+    "negative gap / threshold and hold rows with NaN length built by the test are outside the property's range / the domain: "
+    "code and model are compared, the specification is not evaluated",
 ]
-TRUSTED_EXTRA = ["chart builders of harness/props/c17.py (frames are built column by column with the declared defaults)"]
+TRUSTED_EXTRA = ["chart builders and edit routes of harness/props/c17.py (frames are built column by column with the declared defaults)"]
 
 GAMES = ["base", "osu", "qua", "bms", "o2j", "sm"]
 SM_HIT_EXTRAS = ["fakes", "lifts", "keysounds", "mines"]
@@ -136,7 +149,14 @@ def build_map(case):
     m = _map_class(case["game"])()
     bd = case.get("build") or {}
     m.hits = make_list(type(m.hits), case["hits"], bd.get("hits", "frame"))
-    m.holds = make_list(type(m.holds), case["holds"], bd.get("holds", "frame"))
+    nanh = [r[2] is None for r in case["holds"]]
+    m.holds = make_list(type(m.holds), [[r[0], r[1], r[2] if r[2] is not None else [0, 1]] for r in case["holds"]],
+                        bd.get("holds", "frame"))
+    if any(nanh):
+        # outside the domain (correspondence only): hold rows whose length is NaN
+        import numpy as _np
+        cur = m.holds.df["length"].tolist()
+        m.holds.df = m.holds.df.assign(length=_np.array([float("nan") if n else float(v) for n, v in zip(nanh, cur)], dtype=float))
     for k, rows in (case.get("extras") or {}).items():
         setattr(m, k, make_list(type(m.objs[k]), rows, bd.get("extras", "frame")))
     # legal but unusual inputs: lists that carry columns nobody declared (a stray `length` on hits, `index`, ...)
@@ -280,7 +300,7 @@ def load_chart(case):
     return m
 
 
-def chart_rows(m):
+def chart_rows(m, nan_holds=False):
     """(rows of the further note lists, hits, holds) of a chart; kind of a note = the list it lives in.
     A hit row is (offset, column, stray) where stray = the value of a `length` column the hit list may carry
     (None when absent / NaN) — the property does not look at it, the code does (domain hypothesis of the theorems)."""
@@ -294,9 +314,9 @@ def chart_rows(m):
             if math.isinf(l):
                 raise BadNumber("inf")
             hits.append((fin(o), _intcol(c), None if math.isnan(l) else Fr(l)))
-        holds = rows_of(m.holds)
-        if any(l is None for (_o, _c, l) in holds):
-            raise BadNumber("hold without length")
+        holds = rows_of(m.holds, nan_ok=nan_holds)
+        if "length" not in m.holds.df.columns:
+            raise BadNumber("hold list without length column")
         extras = []
         for k in note_lists(m):
             if k not in ("hits", "holds"):
@@ -366,13 +386,18 @@ def fin(x):
     return Fr(x)
 
 
-def rows_of(lst):
-    """[(offset, column, length|None)] as exact rationals"""
+def rows_of(lst, nan_ok=False):
+    """[(offset, column, length|None)] as exact rationals (nan_ok: a NaN length reads as None instead of refusing)"""
     df = lst.df
     has_len = "length" in df.columns
     offs, cols = df["offset"].tolist(), df["column"].tolist()
     lens = df["length"].tolist() if has_len else [None] * len(offs)
-    return [(fin(o), _intcol(c), fin(l) if has_len else None) for o, c, l in zip(offs, cols, lens)]
+
+    def ln(l):
+        if nan_ok and isinstance(l, float) and math.isnan(l):
+            return None
+        return fin(l)
+    return [(fin(o), _intcol(c), ln(l) if has_len else None) for o, c, l in zip(offs, cols, lens)]
 
 
 def err_class(e):
@@ -410,7 +435,7 @@ def case_extras_rows(case):
 def case_rows(case):
     """(rows of the further note lists, hits, holds) — only hits and holds are the subject of full_ln"""
     hits = [(F(r[0]), int(r[1]), None) for r in case["hits"]]
-    holds = [(F(r[0]), int(r[1]), F(r[2])) for r in case["holds"]]
+    holds = [(F(r[0]), int(r[1]), None if r[2] is None else F(r[2])) for r in case["holds"]]
     return case_extras_rows(case), hits, holds
 
 
@@ -444,26 +469,33 @@ def tolerance(case, rows):
     return Fr(1, 2 ** 46) * (1 + mag)
 
 
-def snap_lengths(impl_rows, inp_rows, gap, tol):
+def snap_lengths(impl_rows, inp_rows, gap, tol, prefer="rule"):
     """stream T: replace each implementation length by the exact value it rounds (a difference of two offsets of
-    its column minus gap, or an input length at that place) when within tol — candidates come from the input only"""
+    its column minus gap, or an input length at that place) when within tol — candidates come from the input only.
+    When a value of BOTH families lies within tol (a hold whose given length already is, up to rounding, what the rule
+    yields: the second call of a session) the two are indistinguishable on this stream; `prefer` says which is taken."""
     cols = by_column(inp_rows)
     out = []
     for (off, c, ln) in impl_rows:
         if ln is None:
             out.append((off, c, ln))
             continue
-        cands = [t[0] - off - gap for t in cols.get(c, [])] + [t[2] for t in cols.get(c, []) if t[0] == off and t[2] is not None]
-        best = min(cands, key=lambda v: abs(v - ln)) if cands else None
-        out.append((off, c, best if best is not None and abs(best - ln) <= tol else ln))
+        fam = dict(rule=[t[0] - off - gap for t in cols.get(c, []) if t[0] >= off],      # the next note is never an earlier one
+                   given=[t[2] for t in cols.get(c, []) if t[0] == off and t[2] is not None])
+        pick = ln
+        for name in ([prefer] + [k for k in ("rule", "given") if k != prefer]):
+            cands = fam[name]
+            best = min(cands, key=lambda v: abs(v - ln)) if cands else None
+            if best is not None and abs(best - ln) <= tol:
+                pick = best
+                break
+        out.append((off, c, pick))
     return out
 
 
 # ------------------------------------------------------------------------------------------ run
 
 def run(case, drv):
-    import warnings
-    from reamber.algorithms.generate.full_ln import full_ln
     gap, thr = F(case["gap"]), F(case["thr"])
     via = case.get("via", "api")
     tags = ["via:" + via + (":" + case["fmt"] if via == "read" else "")]
@@ -475,20 +507,45 @@ def run(case, drv):
     # ---- the input chart: built through the list API, read by a real reader, converted, rated
     try:
         m = load_chart(case)
-        extras, hits_s, holds = chart_rows(m)
     except Skip as e:
-        return dict(claim="full_ln", ok=True, agree=True, dom=False, kf=None, tags=tags + ["skipped", "skip:" + str(e).split(":")[0][:40]],
-                    nontrivial=False, detail={})
+        return _skipped(tags, e)
+    if case.get("session") is not None:
+        return run_session(case, m, drv, tags)
+    fixed_mode = case["mode"] if (via == "api" and not case.get("post")) else None
+    r, _res = judge_call(m, gap, thr, drv, case, tags, fixed_mode)
+    return r
+
+
+def _skipped(tags, e):
+    return dict(claim="full_ln", ok=True, agree=True, dom=False, kf=None, tags=tags + ["skipped", "skip:" + str(e).split(":")[0][:40]],
+                nontrivial=False, detail={})
+
+
+def judge_call(m, gap, thr, drv, case, tags, fixed_mode=None):
+    """ONE call `full_ln(m, gap, thr)` judged against the chart's CURRENT content, which is read here, right before the
+    call, through the plain list API (`m.hits.df`, `m.holds.df`, `m.objs[k].df` — never through `stack()`).
+    Returns (result dict, the chart full_ln returned | None)."""
+    import warnings
+    from reamber.algorithms.generate.full_ln import full_ln
+    via = case.get("via", "api")
+    # hold rows with NaN length: only when the test itself built them (outside the domain, correspondence only);
+    # from any other source such a chart is refused as before (non-finite cell)
+    built_nan = via == "api" and any(h[2] is None for h in case["holds"])
+    try:
+        extras, hits_s, holds = chart_rows(m, nan_holds=built_nan)
+    except Skip as e:
+        return _skipped(tags, e), None
+    nan_hold = any(l is None for (_o, _c, l) in holds)
     tags.append(type(m).__name__)
     hits = [(o, c, None) for (o, c, _l) in hits_s]          # kind of a note = the list it lives in
     stray = any(l is not None for (_o, _c, l) in hits_s)
     inp = hits + holds
-    if via == "api" and not case.get("post"):
-        mode = case["mode"]
+    if fixed_mode is not None:
+        mode = fixed_mode
     else:
         mode = "E" if all(e_exact(v) for r in inp for v in (r[0], r[2] if r[2] is not None else Fr(0))) and e_exact(gap) and e_exact(thr) else "T"
     tags.append(mode)
-    mcase = dict(case, mode=mode)
+    mcase = dict(case, mode=mode, gap=R(gap), thr=R(thr))
     snapshot = {k: v.df.copy(deep=True) for k, v in m.objs.items() if k not in ("hits", "holds")}
     impl_err = None
     res = None
@@ -508,17 +565,19 @@ def run(case, drv):
         tags.append("stray-length")
     if not inp:
         tags.append("empty")
-    dom = not stray          # the theorems' domain hypothesis
+    if nan_hold:
+        tags.append("nan-hold")
+    dom = not stray and not nan_hold          # the theorems' domain hypotheses (`WellKinded`)
     if impl_err is not None:
         tags.append("impl-raises")
         # the property promises a result for every chart, and the model never raises
         return dict(claim="full_ln", ok=False, agree=False, dom=dom, kf=None, tags=tags, nontrivial=nontrivial,
-                    detail=dict(impl_error=impl_err, model=mo))
+                    detail=dict(impl_error=impl_err, model=mo)), None
     # ---- result of the implementation
     bad = None
     try:
         r_hits = [(o, c, None) for (o, c, _l) in rows_of(res.hits)]
-        r_holds = rows_of(res.holds)
+        r_holds = rows_of(res.holds)       # a NaN length in the RESULT's hold list is refused (`fullLnWith_holds_have_length`)
         if any(l is None for (_o, _c, l) in r_holds):
             raise BadNumber("hold list without length")
         r_extras = []
@@ -547,6 +606,22 @@ def run(case, drv):
         out_new_s = out_new
     # ---- (S) specification on the implementation's output: hits+holds of the result against hits+holds of the input
     sp = drv.call("c17.spec", gap=R(gap), thr=R(thr), inp=[jrow(r) for r in inp], out=[jrow(r) for r in out_new_s])["ok"]
+    if mode == "T" and not (sp["spec"] and sp["no_overlap"]):
+        # lengths that are within tol of a value of both families: the other reading, column by column
+        alt = snap_lengths(out_new, seen, gap, tol, prefer="given")
+        if alt != out_new_s:
+            ic, a1, a2 = by_column(inp), by_column(out_new_s), by_column(alt)
+            mixed = []
+            for c in set(a1) | set(a2):
+                r1, r2 = a1.get(c, []), a2.get(c, [])
+                if r1 != r2:
+                    s1 = drv.call("c17.spec", gap=R(gap), thr=R(thr), inp=[jrow(r) for r in ic.get(c, [])], out=[jrow(r) for r in r1])["ok"]
+                    if not (s1["spec"] and s1["no_overlap"]):
+                        r1 = r2
+                mixed += r1
+            sp2 = drv.call("c17.spec", gap=R(gap), thr=R(thr), inp=[jrow(r) for r in inp], out=[jrow(r) for r in mixed])["ok"]
+            if sp2["spec"] and sp2["no_overlap"]:
+                sp = sp2
     if boundary:
         ok = sp["conservation"] and others_ok and bad is None
         tags.append("float-boundary")
@@ -560,6 +635,19 @@ def run(case, drv):
     if stray and built_stray:
         ok = others_ok and bad is None
         tags.append("corr-only")
+    # the property quantifies over gap >= 0 and threshold >= 0; the code accepts negative ones and the model follows it
+    # (`fullLn_spec` holds for every gap/threshold; `neg_gap_reaches`, `neg_thr_negative_length` show what is lost):
+    # such a call is outside the property's range — correspondence only, nothing is demanded of it.
+    if nan_hold:
+        ok = others_ok and bad is None
+        if "corr-only" not in tags:
+            tags.append("corr-only")
+    if gap < 0 or thr < 0:
+        ok = True
+        dom = False
+        tags.append("neg-params")
+        if "corr-only" not in tags:
+            tags.append("corr-only")
     # ---- (C) correspondence with the model
     agree = "ok" in mo
     maxdev = 0.0
@@ -596,7 +684,318 @@ def run(case, drv):
                       impl_hits=[str(x) for x in r_hits[:40]], impl_holds=[str(x) for x in r_holds[:40]],
                       impl_extras=[str(x) for x in r_extras[:20]], model=mo)
     return dict(claim="full_ln", ok=ok, agree=agree, dom=dom, kf=None, tags=tags, nontrivial=nontrivial, maxdev=maxdev,
-                boundary=boundary, detail=detail)
+                boundary=boundary, detail=detail), res
+
+
+# ------------------------------------------------------------------------------------------ sessions
+#
+# A session is a HISTORY on one lineage of chart objects: the chart of the case (m0), then per step
+#     pick an object of the lineage (m0, an earlier result, an earlier derived copy) — optionally derive a new object from it
+#     (deepcopy / rate) — edit it IN PLACE through the routes the library offers — call full_ln on it.
+# Every call is judged on its own (judge_call): the specification and the model get the content the chart has at the
+# moment of the call, read through the plain list API.  A result may depend on nothing but that content.
+
+STACK_TYPES = ["all", "hh", "hh_base", "notes", "holds", "hits"]
+EDIT_KINDS = ["col", "stack", "loc", "rebuild", "swapkind", "retime", "cell"]
+MAX_STEPS = 4
+MAX_EDITS = 4
+
+
+def _stack_of(m, types):
+    from reamber.base.lists.notes.HitList import HitList
+    from reamber.base.lists.notes.HoldList import HoldList
+    from reamber.base.lists.notes.NoteList import NoteList
+    if types == "all":
+        return m.stack()
+    if types == "hh":
+        return m.stack((type(m.hits), type(m.holds)))       # the very key full_ln uses
+    if types == "hh_base":
+        return m.stack((HitList, HoldList))
+    if types == "notes":
+        return m.stack((NoteList,))
+    if types == "holds":
+        return m.stack((type(m.holds),))
+    if types == "hits":
+        return m.stack((type(m.hits),))
+    raise Skip("unknown stack types")
+
+
+def _arith(cur, op, v):
+    return cur + v if op == "add" else cur * v
+
+
+def _cur_rows(lst):
+    """rows of a list as exact wire rows, through the list API"""
+    df = lst.df
+    has_len = "length" in type(lst)([]).df.columns          # the list class declares a length (an undeclared one is dropped)
+    offs, cols = df["offset"].tolist(), df["column"].tolist()
+    lens = df["length"].tolist() if has_len else [None] * len(offs)
+    out = []
+    for o, c, l in zip(offs, cols, lens):
+        row = [R(fin(o)), _intcol(c)]
+        if has_len:
+            row.append(R(fin(l)))
+        out.append(row)
+    return out
+
+
+def apply_edit(m, ed):
+    """one in-place edit of chart `m`; raises Skip when the route does not apply to this chart"""
+    import numpy as np
+    k = ed["k"]
+    if k == "col":                                   # column assignment through a list property
+        lst = m.objs[ed["list"]]
+        f, v = ed["field"], F(ed["v"])
+        if f == "length" and "length" not in lst.df.columns:
+            raise Skip("no length column")
+        if f == "column":
+            setattr(lst, f, (getattr(lst, f) + int(v)) % int(ed.get("keys", 4)))
+        else:
+            setattr(lst, f, _arith(getattr(lst, f), ed["op"], float(v)))
+        return
+    if k == "stack":                                 # m.stack(types).<field> op= v
+        st = _stack_of(m, ed["types"])
+        f, v = ed["field"], float(F(ed["v"]))
+        setattr(st, f, _arith(getattr(st, f), ed["op"], v))
+        return
+    if k == "loc":                                   # st.loc[condition, field] op= v
+        st = _stack_of(m, ed["types"])
+        cf, cmp_, cv = ed["cond"]["f"], ed["cond"]["cmp"], float(F(ed["cond"]["v"]))
+        colv = getattr(st, cf)
+        mask = (colv < cv) if cmp_ == "<" else (colv >= cv) if cmp_ == ">=" else (colv == cv)
+        f, v = ed["field"], float(F(ed["v"]))
+        if ed.get("aslist"):
+            st.loc[mask, [f]] = _arith(st.loc[mask, [f]], ed["op"], v)
+        else:
+            st.loc[mask, f] = _arith(st.loc[mask, f], ed["op"], v)
+        return
+    if k == "rebuild":                               # a NEW list with the same number of rows replaces the old content
+        which = ed["list"]
+        lst = m.objs[which]
+        rows = _cur_rows(lst)
+        d = F(ed["shift"])
+        rows = [[R(F(r[0]) + d)] + r[1:] for r in rows]
+        if ed["perm"] == "reverse":
+            rows = rows[::-1]
+        elif ed["perm"] == "rotate" and rows:
+            rows = rows[1:] + rows[:1]
+        elif ed["perm"] == "mirror":                 # every note to another time of the same span
+            if rows:
+                lo, hi = min(F(r[0]) for r in rows), max(F(r[0]) for r in rows)
+                rows = [[R(lo + hi - F(r[0]))] + r[1:] for r in rows]
+        new = make_list(type(lst), rows, ed.get("build", "frame"))
+        how = ed["how"]
+        if how == "prop":
+            setattr(m, which, new)                   # map property setter: swaps .df on the same list object
+        elif how == "objs":
+            m.objs[which] = new                      # another list object
+        elif how == "df":
+            lst.df = new.df                          # the frame is replaced on the same list object
+        elif how == "dfcopy":
+            lst.df = new.df.copy()
+        else:
+            raise Skip("unknown rebuild route")
+        return
+    if k == "swapkind":                              # filter one list, append to the other: the row total stays
+        src, dst = ("hits", "holds") if ed["dir"] == "h2l" else ("holds", "hits")
+        a, b = m.objs[src], m.objs[dst]
+        rows = _cur_rows(a)
+        n = len(rows)
+        if n == 0:
+            return
+        sel = sorted({i % n for i in ed["sel"]})
+        mask = np.ones(n, dtype=bool)
+        mask[sel] = False
+        moved = [rows[i] for i in sel]
+        if dst == "holds":
+            moved = [[r[0], r[1], ed["len"]] for r in moved]
+        else:
+            moved = [[r[0], r[1]] for r in moved]
+        setattr(m, src, a[mask])
+        setattr(m, dst, b.append(make_list(type(b), moved, ed.get("build", "frame"))))
+        return
+    if k == "retime":                                # filter some rows out and append as many at other times
+        which = ed["list"]
+        a = m.objs[which]
+        rows = _cur_rows(a)
+        n = len(rows)
+        if n == 0:
+            return
+        sel = sorted({i % n for i in ed["sel"]})
+        mask = np.ones(n, dtype=bool)
+        mask[sel] = False
+        d = F(ed["shift"])
+        moved = [[R(F(rows[i][0]) + d)] + rows[i][1:] for i in sel]
+        new = a[mask].append(make_list(type(a), moved, ed.get("build", "frame")), sort=bool(ed.get("sort")))
+        setattr(m, which, new)
+        return
+    if k == "cell":                                  # single cells through the list's loc / iloc shorthands
+        lst = m.objs[ed["list"]]
+        n = len(lst)
+        if n == 0:
+            return
+        f, v = ed["field"], float(F(ed["v"]))
+        if f not in lst.df.columns:
+            raise Skip("no such column")
+        for i in sorted({i % n for i in ed["sel"]}):
+            if ed["route"] == "loc":
+                lab = lst.df.index[i]
+                if list(lst.df.index).count(lab) != 1:
+                    raise Skip("row labels are not unique")
+                lst.loc[lab, f] = lst.loc[lab, f] + v
+            else:
+                j = list(lst.df.columns).index(f)
+                lst.iloc[i, j] = lst.iloc[i, j] + v
+        return
+    raise Skip("unknown edit")
+
+
+def run_session(case, m0, drv, tags):
+    import logging
+    import warnings
+    lineage = [m0]
+    results = []
+    stopped = None
+    for si, st in enumerate(case["session"]):
+        try:
+            logging.disable(logging.CRITICAL)
+            with warnings.catch_warnings():
+                warnings.simplefilter("ignore")
+                try:
+                    obj = lineage[int(st.get("src", -1)) % len(lineage)]
+                    dv = st.get("derive")
+                    if dv is not None:
+                        if dv["op"] == "deepcopy":
+                            obj = obj.deepcopy()
+                        elif dv["op"] == "rate":
+                            obj = obj.rate(float(F(dv["by"])))
+                        else:
+                            raise Skip("unknown derivation")
+                        lineage.append(obj)
+                        tags.append("derive:" + dv["op"])
+                    for ed in st.get("edits") or []:
+                        apply_edit(obj, ed)
+                        tags.append("edit:" + ed["k"] + (":" + ed["how"] if ed["k"] == "rebuild" else "")
+                                    + (":" + ed["types"] if ed["k"] in ("stack", "loc") else ""))
+                except Skip:
+                    raise
+                except Exception as e:
+                    raise Skip("edit-refused:" + type(e).__name__)
+                finally:
+                    logging.disable(logging.NOTSET)
+        except Skip as e:
+            stopped = str(e).split(":")[0][:40] + ":" + str(e).split(":")[-1][:30]
+            break
+        t = []
+        r, res = judge_call(obj, F(st["gap"]), F(st["thr"]), drv, case, t)
+        for x in t:
+            if x not in tags:
+                tags.append(x)
+        if "skipped" in r["tags"]:
+            stopped = "call-skipped"
+            break
+        results.append((si, r))
+        if res is None or not (r["ok"] and r["agree"]):
+            break
+        lineage.append(res)
+    tags.append("session")
+    tags.append(f"calls:{len(results)}")
+    if stopped:
+        tags.append("session-stopped:" + stopped)
+    if not results:
+        return dict(claim="full_ln", ok=True, agree=True, dom=False, kf=None, tags=tags + ["skipped"], nontrivial=False, detail={})
+    bad = [(si, r) for si, r in results if not (r["ok"] and r["agree"])]
+    detail = {}
+    if bad:
+        si, r = bad[0]
+        detail = dict(step=si, calls_before=len(results) - 1, **r["detail"])
+    return dict(claim="full_ln", ok=all(r["ok"] for _, r in results), agree=all(r["agree"] for _, r in results),
+                dom=(bad[0][1]["dom"] if bad else all(r["dom"] for _, r in results)), kf=None, tags=tags,
+                nontrivial=len(results) >= 2 and any(r["nontrivial"] for _, r in results),
+                maxdev=max(r.get("maxdev", 0.0) for _, r in results), boundary=any(r.get("boundary") for _, r in results),
+                detail=detail)
+
+
+def gen_edit(rng, exact):
+    def num(choices_e, lo, hi):
+        if exact:
+            return Fr(rng.choice(choices_e))
+        return Fr(round(rng.uniform(lo, hi), rng.choice([0, 1, 3])))
+    shift = lambda: num([1500, 33, 1, 250, -100, 1000, Fr(1, 2), Fr(7, 4), -1500, 64, 100000], -2000, 5000)
+    k = rng.choice(["col", "col", "stack", "stack", "stack", "loc", "loc", "rebuild", "rebuild", "swapkind", "retime", "cell"])
+    build = rng.choice(BUILDS)
+    if k == "cell":
+        lst = rng.choice(["hits", "holds", "holds"])
+        f = rng.choice(["offset", "length"]) if lst == "holds" else "offset"
+        v = num([33, 1, 100, 500, Fr(1, 4)], 0, 500) if f == "length" else shift()
+        return dict(k=k, list=lst, field=f, route=rng.choice(["loc", "iloc"]), v=R(v),
+                    sel=[rng.randrange(0, 1000) for _ in range(rng.choice([1, 1, 2, 4]))])
+    if k == "col":
+        lst = rng.choice(["hits", "holds", "holds"])
+        f = rng.choice(["offset", "offset", "length", "column"]) if lst == "holds" else rng.choice(["offset", "offset", "column"])
+        if f == "column":
+            return dict(k=k, list=lst, field=f, op="add", v=R(Fr(rng.choice([1, 2, 3]))), keys=rng.choice([2, 3, 4, 7]))
+        if f == "length":
+            op = rng.choice(["add", "add", "mul"])
+            v = num([33, 1, 100, 500, Fr(1, 4)], 0, 500) if op == "add" else Fr(rng.choice([2, 4, Fr(1, 2), 3]))
+            return dict(k=k, list=lst, field=f, op=op, v=R(v))
+        op = rng.choice(["add", "add", "add", "mul"])
+        v = shift() if op == "add" else Fr(rng.choice([2, Fr(1, 2), 4, 3]))
+        return dict(k=k, list=lst, field=f, op=op, v=R(v))
+    if k in ("stack", "loc"):
+        types = rng.choice(["all", "all", "hh", "hh_base", "notes", "holds", "hits"])
+        f = "offset" if types == "hits" else rng.choice(["offset", "offset", "offset", "length"])
+        if f == "length":
+            op = rng.choice(["add", "mul"])
+            v = num([33, 1, 100, 500, Fr(1, 4)], 0, 500) if op == "add" else Fr(rng.choice([2, 4, Fr(1, 2), 3]))
+        else:
+            op = rng.choice(["add", "add", "add", "mul"])
+            v = shift() if op == "add" else Fr(rng.choice([2, Fr(1, 2), 4, 3]))
+        ed = dict(k=k, types=types, field=f, op=op, v=R(v))
+        if k == "loc":
+            cf = rng.choice(["column", "column", "offset"]) if types != "all" else "offset"
+            if cf == "column":
+                cond = dict(f=cf, cmp=rng.choice(["<", ">=", "=="]), v=R(Fr(rng.choice([0, 1, 1, 2, 3]))))
+            else:
+                cond = dict(f=cf, cmp=rng.choice(["<", ">="]), v=R(num([0, 250, 1000, 5000, 50000], -2000, 100000)))
+            ed["cond"] = cond
+            if rng.random() < 0.3:
+                ed["aslist"] = True
+        return ed
+    if k == "rebuild":
+        return dict(k=k, list=rng.choice(["hits", "holds"]), how=rng.choice(["prop", "prop", "objs", "df", "dfcopy"]),
+                    perm=rng.choice(["same", "reverse", "rotate", "mirror", "mirror"]), shift=R(shift() if rng.random() < 0.7 else Fr(0)),
+                    build=build)
+    if k == "swapkind":
+        return dict(k=k, dir=rng.choice(["h2l", "l2h"]), sel=[rng.randrange(0, 1000) for _ in range(rng.choice([1, 1, 2, 3, 8]))],
+                    len=R(num([0, 1, 40, 100, 700], 0, 900)), build=build)
+    return dict(k="retime", list=rng.choice(["hits", "holds"]), sel=[rng.randrange(0, 1000) for _ in range(rng.choice([1, 2, 3, 8]))],
+                shift=R(shift()), sort=rng.random() < 0.3, build=build)
+
+
+def gen_session(rng, case):
+    """2-4 full_ln calls on one lineage of chart objects with edits in between"""
+    exact = case.get("mode", "E") == "E"
+    steps = []
+    n = rng.choice([2, 2, 2, 3, 3, 4])
+    for i in range(n):
+        gap, thr = gen_params(rng, "E" if exact or rng.random() < 0.5 else "T")
+        st = dict(gap=R(gap), thr=R(thr))
+        r = rng.random()
+        if i == 0:
+            st["src"] = 0
+        else:
+            # mostly the latest result (the object a user keeps working with), else anything of the lineage
+            st["src"] = -1 if r < 0.65 else rng.randrange(0, 8)
+        r = rng.random()
+        if r < 0.15:
+            st["derive"] = dict(op="deepcopy")
+        elif r < 0.25:
+            st["derive"] = dict(op="rate", by=R(Fr(rng.choice([2.0, 0.5, 4.0, 0.25, 1.5, 1.1]))))
+        ne = rng.choice([0, 1, 1, 1, 2, 3]) if i > 0 else rng.choice([0, 0, 0, 1, 2])
+        st["edits"] = [gen_edit(rng, exact) for _ in range(ne)]
+        steps.append(st)
+    return steps
 
 
 # ------------------------------------------------------------------------------------------ generators
@@ -824,18 +1223,33 @@ def gen(rng, tier, i):
             allrows = rng.random() < 0.5
             val = lambda: R(Fr(rng.choice([0, 0, 1, 50, 1000])))
             case["hits"] = [h + [val() if (allrows or rng.random() < 0.5) else None] for h in case["hits"]]
+        if rng.random() < 0.02 and case["holds"]:
+            # outside the domain (correspondence only): hold rows with NaN length
+            allrows = rng.random() < 0.3
+            case["holds"] = [[h[0], h[1], None if (allrows or rng.random() < 0.4) else h[2]] for h in case["holds"]]
         if rng.random() < 0.15:
             case["xcols"] = {k: rng.choice([["index"], ["foo"], ["index", "foo"]]) for k in rng.choice([["hits"], ["holds"], ["hits", "holds"]])}
     if rng.random() < 0.22:
         if case.get("via") != "read" and not case.get("bpms"):
             case["bpms"] = [[R(Fr(0)), R(Fr(120))]]
         case["post"] = [gen_post(rng, case)]
+    if rng.random() < 0.3:
+        case["session"] = gen_session(rng, case)
+    if rng.random() < 0.04:
+        # outside the property's range (correspondence only): a negative gap and / or threshold
+        neg = lambda: R(-Fr(rng.choice([1, 50, 150, 1000, Fr(1, 2), rng.randrange(1, 400)])))
+        w = rng.choice(["gap", "thr", "both"])
+        tgt = rng.choice(case["session"]) if case.get("session") else case
+        if w in ("gap", "both"):
+            tgt["gap"] = neg()
+        if w in ("thr", "both"):
+            tgt["thr"] = neg()
     return case
 
 
 def _c(game, gap, thr, hits, holds, mode="E", extras=None, bpms=None, **kw):
     d = dict(claim="full_ln", game=game, mode=mode, gap=R(Fr(gap)), thr=R(Fr(thr)),
-             hits=[[R(Fr(h[0])), h[1]] + ([None if h[2] is None else R(Fr(h[2]))] if len(h) > 2 else []) for h in hits], holds=[[R(Fr(t)), c, R(Fr(l))] for t, c, l in holds],
+             hits=[[R(Fr(h[0])), h[1]] + ([None if h[2] is None else R(Fr(h[2]))] if len(h) > 2 else []) for h in hits], holds=[[R(Fr(t)), c, None if l is None else R(Fr(l))] for t, c, l in holds],
              bpms=[[R(Fr(a)), R(Fr(b))] for a, b in (bpms or [])])
     if extras:
         d["extras"] = {k: [[R(Fr(x[0])), x[1]] + ([R(Fr(x[2]))] if len(x) > 2 else []) for x in v] for k, v in extras.items()}
@@ -900,6 +1314,32 @@ def corpus():
     # D24 (repaired) witness shape: Quaver charts with notes
     c.append(_c("qua", G, T, [(0, 0)], []))
     c.append(_c("qua", G, T, [(0, 0), (250, 0), (249, 1)], [(100, 1, 30), (900, 0, 10)]))
+    # outside the property's range: negative gap / threshold (correspondence only)
+    c.append(_c("base", -50, 0, [(0, 0), (100, 0)], []))
+    c.append(_c("osu", 150, -1000, [(0, 0), (100, 0), (100, 0)], [(400, 0, 10)]))
+    c.append(_c("sm", -10.5, -3, [(0, 0), (100, 0), (5, 1)], [(400, 0, 10), (7, 1, 2)], build=dict(hits="dict", holds="items")))
+    # outside the domain: hold rows with NaN length (`nan_hold_counterexample`), correspondence only
+    c.append(_c("base", G, T, [], [(0, 0, 10), (500, 0, None)]))
+    c.append(_c("osu", 0, 0, [(0, 0), (100, 1)], [(50, 0, None), (50, 0, 7), (300, 1, None), (300, 1, None)]))
+    # sessions: repeated calls on one lineage of chart objects with in-place edits in between; every call is judged against
+    # the content the chart has when it is called (seeded change C17-G: Map.stack() handed out a cached, stale Stacker)
+    S = lambda gap, thr, edits=(), src=-1, derive=None: dict(gap=R(Fr(gap)), thr=R(Fr(thr)), src=src, edits=list(edits),
+                                                             **({"derive": derive} if derive else {}))
+    for g in ["base", "osu", "sm", "qua"]:
+        chart = lambda **kw: _c(g, G, T, [(0, 0), (400, 0), (1000, 0), (1000, 2), (1300, 2)], [(100, 1, 50), (900, 1, 700), (2000, 0, 250)],
+                                bpms=[(0, 120)], **kw)
+        c.append(chart(session=[S(G, T, src=0), S(40, 60, [dict(k="stack", types="all", field="offset", op="add", v=R(Fr(1500)))])]))
+        c.append(chart(session=[S(G, T, src=0), S(G, T, [dict(k="col", list="holds", field="length", op="add", v=R(Fr(33)))])]))
+        c.append(chart(session=[S(G, T, src=0), S(0, 0, [dict(k="col", list="hits", field="offset", op="mul", v=R(Fr(2))),
+                                                          dict(k="col", list="holds", field="offset", op="mul", v=R(Fr(2)))])]))
+        c.append(chart(session=[S(G, T, [dict(k="stack", types="hh", field="offset", op="add", v=R(Fr(0)))], src=0),
+                                S(G, T, [dict(k="rebuild", list="holds", how="prop", perm="mirror", shift=R(Fr(64)), build="dict")], src=0)]))
+        c.append(chart(session=[S(G, T, src=0), S(10, 5, [dict(k="swapkind", dir="l2h", sel=[0, 1], len=R(Fr(40)), build="items")]),
+                                S(G, T, [dict(k="loc", types="notes", field="offset", op="add", v=R(Fr(250)),
+                                              cond=dict(f="column", cmp="==", v=R(Fr(0))))], derive=dict(op="deepcopy")),
+                                S(0, 0, [dict(k="retime", list="hits", sel=[0, 5], shift=R(Fr(-100)), build="frame_int")], src=0)]))
+        c.append(chart(session=[S(G, T, src=0), S(G, T, [dict(k="rebuild", list="hits", how="df", perm="rotate", shift=R(Fr(7, 4)), build="ldict")],
+                                                  derive=dict(op="rate", by=R(Fr(2))))]))
     return c
 
 
@@ -941,12 +1381,89 @@ def _post_ok(case):
     return True
 
 
+def _edit_ok(ed):
+    if not isinstance(ed, dict) or ed.get("k") not in EDIT_KINDS:
+        return False
+    k = ed["k"]
+    rat = lambda x: _is_rat(x, "T")
+    if ed.get("build", "frame") not in BUILDS:
+        return False
+    if k == "col":
+        if ed.get("list") not in ("hits", "holds") or ed.get("field") not in ("offset", "length", "column") or not rat(ed.get("v")):
+            return False
+        if ed["field"] == "length" and ed["list"] != "holds":
+            return False
+        if ed["field"] == "column":
+            return ed["v"][1] == 1 and 0 <= ed["v"][0] <= 17 and isinstance(ed.get("keys", 4), int) and 1 <= ed.get("keys", 4) <= 18
+        if ed.get("op") not in ("add", "mul"):
+            return False
+        if ed["op"] == "mul" and ed["v"][0] <= 0:
+            return False
+        return not (ed["field"] == "length" and ed["v"][0] < 0)
+    if k in ("stack", "loc"):
+        if ed.get("types") not in STACK_TYPES or ed.get("field") not in ("offset", "length") or ed.get("op") not in ("add", "mul"):
+            return False
+        if not rat(ed.get("v")) or (ed["op"] == "mul" and ed["v"][0] <= 0) or (ed["field"] == "length" and ed["v"][0] < 0):
+            return False
+        if ed["field"] == "length" and ed["types"] == "hits":
+            return False
+        if k == "loc":
+            c = ed.get("cond")
+            if not (isinstance(c, dict) and c.get("f") in ("column", "offset") and c.get("cmp") in ("<", ">=", "==") and rat(c.get("v"))):
+                return False
+            if c["f"] == "column" and ed["types"] == "all":
+                return False
+        return True
+    if k == "rebuild":
+        return (ed.get("list") in ("hits", "holds") and ed.get("how") in ("prop", "objs", "df", "dfcopy")
+                and ed.get("perm") in ("same", "reverse", "rotate", "mirror") and rat(ed.get("shift")))
+    if k == "swapkind":
+        return (ed.get("dir") in ("h2l", "l2h") and isinstance(ed.get("sel"), list) and 1 <= len(ed["sel"]) <= 8
+                and all(isinstance(i, int) and not isinstance(i, bool) and i >= 0 for i in ed["sel"])
+                and rat(ed.get("len")) and ed["len"][0] >= 0)
+    if k == "cell":
+        return (ed.get("list") in ("hits", "holds") and ed.get("field") in ("offset", "length") and ed.get("route") in ("loc", "iloc")
+                and not (ed["field"] == "length" and ed["list"] != "holds") and rat(ed.get("v"))
+                and not (ed["field"] == "length" and ed["v"][0] < 0)
+                and isinstance(ed.get("sel"), list) and 1 <= len(ed["sel"]) <= 8
+                and all(isinstance(i, int) and not isinstance(i, bool) and i >= 0 for i in ed["sel"]))
+    if k == "retime":
+        return (ed.get("list") in ("hits", "holds") and isinstance(ed.get("sel"), list) and 1 <= len(ed["sel"]) <= 8
+                and all(isinstance(i, int) and not isinstance(i, bool) and i >= 0 for i in ed["sel"]) and rat(ed.get("shift")))
+    return False
+
+
+def _session_ok(case):
+    ss = case.get("session")
+    if ss is None:
+        return True
+    if not isinstance(ss, list) or not (1 <= len(ss) <= MAX_STEPS):
+        return False
+    for st in ss:
+        if not isinstance(st, dict) or not (_is_rat(st.get("gap"), "T") and _is_rat(st.get("thr"), "T")):
+            return False
+        if not isinstance(st.get("src", -1), int) or isinstance(st.get("src", -1), bool):
+            return False
+        dv = st.get("derive")
+        if dv is not None:
+            if not isinstance(dv, dict) or dv.get("op") not in ("deepcopy", "rate"):
+                return False
+            if dv["op"] == "rate" and not (_is_rat(dv.get("by"), "T") and dv["by"][0] > 0):
+                return False
+        eds = st.get("edits", [])
+        if not isinstance(eds, list) or len(eds) > MAX_EDITS or not all(_edit_ok(e) for e in eds):
+            return False
+    return True
+
+
 def valid(case):
     try:
+        if not _session_ok(case):
+            return False
         if case.get("via") == "read":
             return (case.get("claim") == "full_ln" and case.get("fmt") in ("osu", "qua", "sm", "bms", "o2j")
                     and isinstance(case.get("payload"), dict) and isinstance(case.get("pick", 0), int)
-                    and _is_rat(case["gap"], "T") and _is_rat(case["thr"], "T") and case["gap"][0] >= 0 and case["thr"][0] >= 0
+                    and _is_rat(case["gap"], "T") and _is_rat(case["thr"], "T")
                     and _post_ok(case))
         return _valid_api(case) and _post_ok(case)
     except Exception:
@@ -958,7 +1475,7 @@ def _valid_api(case):
         mode = case["mode"]
         if case["game"] not in GAMES or mode not in ("E", "T") or case.get("claim") != "full_ln":
             return False
-        if not (_is_rat(case["gap"], mode) and _is_rat(case["thr"], mode)) or case["gap"][0] < 0 or case["thr"][0] < 0:
+        if not (_is_rat(case["gap"], mode) and _is_rat(case["thr"], mode)):
             return False
 
         def col_ok(c):
@@ -975,8 +1492,8 @@ def _valid_api(case):
                                                for k, v in xc.items()):
                 return False
         for r in case["holds"]:
-            if not (isinstance(r, list) and len(r) == 3 and _is_rat(r[0], mode) and col_ok(r[1]) and _is_rat(r[2], mode)
-                    and r[2][0] >= 0):
+            if not (isinstance(r, list) and len(r) == 3 and _is_rat(r[0], mode) and col_ok(r[1])
+                    and (r[2] is None or (_is_rat(r[2], mode) and r[2][0] >= 0))):
                 return False
         ex = case.get("extras") or {}
         if ex and case["game"] != "sm":
